@@ -334,34 +334,48 @@ func execPass(h execIn, t *clx.Tables, observe bool, uh, ut []*types.Hash) (out 
 		}
 		return txs
 	}
-	entryOf := func(opIdx int, height uint64) (clx.Entry, *types.Hash, []*types.Hash, error) {
+	// the entry of a block = what the executor SEALED and handed to PersistBlockData: header, hash and
+	// transactions of the block it announced (blk; nil for the two bootstrap blocks, which are read
+	// back), the receipts stored for exactly those transactions, and the interchain meta recomputed
+	// from those receipts' interchain events (not read back from the stored meta)
+	entryOf := func(opIdx int, blk *pb.Block) (clx.Entry, *types.Hash, []*types.Hash, int) {
 		s := view()
-		b, err := s.CL.GetBlock(height, true)
-		if err != nil {
-			return clx.Entry{}, nil, nil, err
+		code := 0
+		if blk == nil {
+			b, err := s.CL.GetBlock(c.Height(), true)
+			if err != nil {
+				return clx.Entry{Op: opIdx, IC: []clx.ICEntry{}}, &types.Hash{}, nil, 5
+			}
+			blk = b
 		}
 		var txh, rch []*types.Hash
 		var rcs []*pb.Receipt
-		for _, tx := range b.Transactions.Transactions {
+		for _, tx := range blk.Transactions.Transactions {
 			txh = append(txh, tx.GetHash())
-			r, err := s.CL.GetReceipt(tx.GetHash())
+			r, err := func() (r *pb.Receipt, err error) {
+				defer func() {
+					if recover() != nil {
+						err = fmt.Errorf("panic")
+					}
+				}()
+				return s.CL.GetReceipt(tx.GetHash())
+			}()
 			if err != nil {
-				return clx.Entry{}, nil, nil, err
+				code = 5 // a receipt of an executed transaction cannot be read: reported, the judge decides
+				continue
 			}
 			rch = append(rch, r.Hash())
 			rcs = append(rcs, r)
 		}
-		// the interchain meta the block SHOULD carry: recomputed from the receipts' interchain events,
-		// not read back from the stored meta
-		e := clx.Entry{Op: opIdx, Hdr: t.Header(b.BlockHeader), Hash: t.In.Hash(b.BlockHash), Txs: t.Root(txh), Rcpts: t.Root(rch),
+		e := clx.Entry{Op: opIdx, Hdr: t.Header(blk.BlockHeader), Hash: t.In.Hash(blk.BlockHash), Txs: t.Root(txh), Rcpts: t.Root(rch),
 			IC: clx.ExecutedIC(rcs), Tag: 0}
-		return e, b.BlockHash, txh, nil
+		return e, blk.BlockHash, txh, code
 	}
-	record := func(opIdx int, code int) error {
+	record := func(opIdx int, code int, blk *pb.Block) error {
 		if opIdx < 0 || code == 0 || code == 6 {
-			e, bh, txh, err := entryOf(opIdx, c.Height())
-			if err != nil {
-				return err
+			e, bh, txh, c2 := entryOf(opIdx, blk)
+			if code == 0 {
+				code = c2
 			}
 			out.Entries = append(out.Entries, e)
 			madeB, madeT = append(madeB, bh), append(madeT, txh...)
@@ -374,7 +388,7 @@ func execPass(h execIn, t *clx.Tables, observe bool, uh, ut []*types.Hash) (out 
 		return nil
 	}
 	// step -2: genesis (block 1) was executed by NewChain
-	if err := record(-2, 0); err != nil {
+	if err := record(-2, 0, nil); err != nil {
 		return out, nil, nil, err
 	}
 	// step -1: block 2 carries the seeded appchains / services and funds the interchain user
@@ -387,21 +401,35 @@ func execPass(h execIn, t *clx.Tables, observe bool, uh, ut []*types.Hash) (out 
 	}
 	g.nonces[0] = 1
 	genAt[2] = g
-	if err := record(-1, 0); err != nil {
+	if err := record(-1, 0, nil); err != nil {
 		return out, nil, nil, err
 	}
 	for i, o := range h.Ops {
 		code := 0
+		var sealed *pb.Block
 		switch o.Op {
 		case "x", "y":
 			before := c.Height()
 			target := before + 1
 			if o.Op == "y" {
-				if o.K < 3 || o.K > before {
-					return out, nil, nil, fmt.Errorf("re-delivery needs 3 <= k <= head (block 2 carries the seeds)")
+				if o.K < 3 {
+					return out, nil, nil, fmt.Errorf("re-delivery needs 3 <= k (block 2 carries the seeds)")
+				}
+				if o.K > before {
+					code = 9 // nothing to replace: earlier steps were refused, the head is lower than planned
+					break
 				}
 				target = o.K
 				g = genAt[target-1] // the state is rolled back to block k-1
+			}
+			// PersistExecutionResult appends at file position = chain height; if something is still stored
+			// above the head the append is refused ("out-order") and the goroutine's panic kills the
+			// process: not executed, reported as code 9
+			if o.Op == "x" {
+				if _, err := view().CL.GetBlock(before+1, true); err == nil {
+					code = 9
+					break
+				}
 			}
 			txs := mkTxs(i, o.N, o.Bad, o.M, o.MBad, i+1) // receivers / proofs depend on the op: a re-delivered block differs
 			var ev *events.ExecutedEvent
@@ -415,9 +443,7 @@ func execPass(h execIn, t *clx.Tables, observe bool, uh, ut []*types.Hash) (out 
 				break
 			}
 			genAt[target] = g
-			if bh := c.Ledger.GetChainMeta().BlockHash; ev.Block.BlockHash.String() != bh.String() {
-				code = 6 // what the executor announced is not what the ledger holds
-			}
+			sealed = ev.Block
 		case "o":
 			if err := c.Restart(); err != nil {
 				return out, nil, nil, fmt.Errorf("restart: %w", err)
@@ -437,7 +463,7 @@ func execPass(h execIn, t *clx.Tables, observe bool, uh, ut []*types.Hash) (out 
 			out.Steps = append(out.Steps, st)
 			continue
 		}
-		if err := record(opIdx, code); err != nil {
+		if err := record(opIdx, code, sealed); err != nil {
 			return out, nil, nil, err
 		}
 	}
